@@ -316,6 +316,8 @@ class HistoryRun(object):
         self.stale_consumed = set()   # (id, key bytes) consumed while in layer._unsent_prekeys
         self.stale_serial = set()     # the same as (id, serial)
         self.nontrivial = set()
+        self.ledger = []              # one entry per upload stanza: where, which ids, how it was answered
+        self.soft = set()             # indexes of problems that do not end the history
 
     def run(self):
         # manager.level_prekeys writes progress to sys.stdout whenever its logger has no level set
@@ -369,7 +371,12 @@ class HistoryRun(object):
                         pending.append(e[1])
                         conn_uploads.append(e[1])
                         rig.server_accept(u)         # the stanza reached the server (its reply may get lost)
+                        self.ledger.append({"stanza": e[1], "step": len(self.ops) - 1, "sent_at": op[0],
+                                            "ids": sorted(int.from_bytes(k, "big") for k, _ in u["keys"]),
+                                            "answer": None})
                         self.check_upload(rig, u, op)
+                        if hist_wf:
+                            self.check_upload_side(rig, u, op, confirmed_before)
                         for kid, val in u["keys"]:
                             i = int.from_bytes(kid, "big")
                             offered.setdefault(i, set()).add(val)
@@ -392,10 +399,14 @@ class HistoryRun(object):
                                               KNOWN_KEY if self.reuse_seen else None))
                 if op[0] in ("result", "error") and op[1] in pending:
                     pending.remove(op[1])
+                    for led in self.ledger:
+                        if led["stanza"] == op[1]:
+                            led["answer"] = op[0] + (" (callback raised)" if ["exn"] in [e[:1] for e in evs] else "")
                     if op[0] == "result" and ["exn"] not in [e[:1] for e in evs]:
                         for kid, val in rig.uploads[op[1]]["keys"]:
                             confirmed_keys.add((int.from_bytes(kid, "big"), val))
                         self.nontrivial.add("confirm")
+                        self.check_confirmation(rig, op[1], before, after)
                 # ---- property oracles on the implementation
                 inv_serial = {v: k for k, v in rig.serial_of.items()}
                 for rid, ser, sent in after["rows"]:
@@ -421,8 +432,14 @@ class HistoryRun(object):
                             all(k in got for k in want)
                         self.problems.append(("oracle:reoffer", {
                             "step": len(self.ops) - 1, "stored_unconfirmed": want, "offered": got,
+                            "not_offered": [k[0] for k in want if k not in got],
+                            "offered_but_not_pending": [k[0] for k in extra],
                             "what": "passive login did not offer exactly the stored unconfirmed keys"},
                             KNOWN_KEY2 if only_stale else KNOWN_KEY if self.reuse_seen else None))
+                        if got and not extra:
+                            # only part of the backlog was offered: go on, what matters is what the
+                            # confirmation of this partial upload does to the keys left out
+                            self.soft.add(len(self.problems) - 1)
                     if want:
                         self.nontrivial.add("reoffer")
                 if op[0] == "authed" and hist_wf:
@@ -433,10 +450,13 @@ class HistoryRun(object):
                             "step": len(self.ops) - 1, "ids": again,
                             "what": "keys of an already confirmed upload were offered again at a login"},
                             KNOWN_KEY if self.reuse_seen else None))
-                if any(k != KNOWN_KEY2 for _, _, k in self.problems):
+                if any(k != KNOWN_KEY2 and n not in self.soft for n, (_, _, k) in enumerate(self.problems)):
                     break      # (problems explained by the stale-list finding do not end the history)
-            # report a problem that no listed finding explains before one that a finding does
-            self.problems.sort(key=lambda pr: pr[2] is not None)
+            # report a problem that no listed finding explains before one that a finding does, and a
+            # partial offer after what followed from it
+            order = sorted(range(len(self.problems)),
+                           key=lambda n: (self.problems[n][2] is not None, n in self.soft, n))
+            self.problems = [self.problems[n] for n in order]
         finally:
             rig.close()
         return self
@@ -477,6 +497,62 @@ class HistoryRun(object):
             kid = cands[-1] if pick == "max" else cands[pick % len(cands)]
             return ("consume", kid, "directory")
         return None
+
+    def check_upload_side(self, rig, u, op, confirmed_before):
+        """the upload side of the property, on the stanza as the server sees it and the store's flags at the
+        moment it was sent (server-realistic histories): an upload - at a login or answering a key-count
+        request - offers only keys that are stored and still pending, and never a key that an already
+        confirmed upload contained (a carried key that is flagged sent without such an upload is the
+        sent-only-after-confirm clause)"""
+        inv_serial = {v: k for k, v in rig.serial_of.items()}
+        flags = {(r[0], inv_serial[r[1]]): r[2] for r in u["rows_at_upload"]}
+        not_pending, again = [], []
+        for kid, val in u["keys"]:
+            i = int.from_bytes(kid, "big")
+            if (i, val) in confirmed_before:
+                again.append(i)
+            elif flags.get((i, val)) is True:
+                not_pending.append(i)
+        step = len(self.ops) - 1
+        if again:
+            stale = all((i, v) in self.stale_consumed for i, v in
+                        ((int.from_bytes(k, "big"), v) for k, v in u["keys"]) if i in again)
+            self.problems.append(("oracle:confirmed_not_reoffered", {
+                "step": step, "stanza": u["index"], "sent_at": op[0], "ids": sorted(again),
+                "confirmed_by": [l["stanza"] for l in self.ledger
+                                 if l["answer"] == "result" and set(l["ids"]) & set(again)],
+                "what": "upload stanza #%d (sent at %s) offers prekeys %s again although an upload containing "
+                        "them had already been confirmed" % (u["index"], op[0], sorted(again))},
+                KNOWN_KEY2 if stale else KNOWN_KEY if self.reuse_seen else None))
+        if not_pending:
+            self.problems.append(("oracle:sent_only_after_confirm", {
+                "step": step, "stanza": u["index"], "sent_at": op[0], "ids": sorted(not_pending),
+                "what": "right after upload stanza #%d was sent the store flags prekeys %s it carries as sent "
+                        "although no confirmed upload contained them" % (u["index"], sorted(not_pending))},
+                KNOWN_KEY if self.reuse_seen else None))
+
+    def check_confirmation(self, rig, idx, before, after):
+        """an iq result for upload stanza #idx: exactly the keys that stanza carried stop being pending -
+        none that was not on the wire, all that were (and are still stored)"""
+        ids = set(int.from_bytes(k, "big") for k, _ in rig.uploads[idx]["keys"])
+        was_pending = set(r[0] for r in before["rows"] if not r[2])
+        now_sent = set(r[0] for r in after["rows"] if r[2])
+        flagged = sorted(i for i in was_pending & now_sent if i not in ids)
+        still = sorted(r[0] for r in after["rows"] if r[0] in ids and not r[2])
+        step = len(self.ops) - 1
+        if flagged:
+            self.problems.append(("oracle:sent_only_after_confirm", {
+                "step": step, "stanza": idx, "stanza_ids": sorted(ids), "ids": flagged,
+                "what": "the confirmation of upload stanza #%d, which carried prekeys %s, marked prekeys %s as "
+                        "sent: they were never on the wire in a confirmed upload and will not be offered again"
+                        % (idx, sorted(ids), flagged)},
+                KNOWN_KEY if self.reuse_seen else None))
+        if still:
+            self.problems.append(("oracle:confirmed_not_pending", {
+                "step": step, "stanza": idx, "ids": still,
+                "what": "upload stanza #%d was confirmed but prekeys %s it carried still count as pending"
+                        % (idx, still)},
+                KNOWN_KEY if self.reuse_seen else None))
 
     def check_upload(self, rig, u, op):
         from axolotl.ecc.curve import Curve
@@ -631,6 +707,14 @@ def systematic():
         (4, [C, NP, ask, res, {"op": "consume", "pick": 0}, D, C, A, res]),
         (3, [C, NP, ask, res, ask, res, {"op": "consume", "pick": 1}, {"op": "consume", "pick": 0}, D, C, D, C, A]),
         (5, [C, NP, D, C, NP, ask, {"op": "consume", "pick": 2}, res, D, C, A, res, D, C, A]),
+        # two confirmations lost in a row, a new generation before each flush (backlog > one batch)
+        (3, [C, A, D, C, A, D, C, A, res, D, C, A, res]),
+        # the login flush is confirmed, the key-count batch is not: it must be offered at the next login
+        (4, [C, A, res, D, C, A, ask, D, C, A, res, D, C, A]),
+        # non-passive login with keys waiting, key-count request whose confirmation is lost
+        (3, [C, NP, ask, D, C, A, res, D, C, A]),
+        # non-passive login, two confirmed key-count requests, then two passive logins
+        (4, [C, NP, ask, res, ask, res, D, C, A, res, D, C, A, res]),
     ]
 
 
@@ -733,6 +817,64 @@ def adjust_id_cases(ctx, model):
     return len(vals), bad
 
 
+def violation_case(batch, script, detail, origin, hr, **extra):
+    """what a replay file says: the history, what failed, every upload stanza (which prekey ids, where it was
+    sent, how it was answered) and the store's rows with their sent flag at the end"""
+    case = {"batch": batch, "script": script, "detail": detail, "origin": origin,
+            "server_realistic_history": realistic(script),
+            "oracles_failing": sorted(set(n for n, _, k in hr.problems if k is None)),
+            "uploads": hr.ledger,
+            "store_at_end": [[r[0], "sent" if r[2] else "pending"] for r in hr.steps[-1][2]["rows"]]
+            if hr.steps else []}
+    case.update(extra)
+    return case
+
+
+def end_state(script):
+    connected = authed = False
+    for o in script:
+        k = o["op"]
+        if k == "connect":
+            connected, authed = True, False
+        elif k == "authed":
+            authed = connected
+        elif k in ("disconnected", "restart"):
+            connected = authed = False
+    return connected, authed
+
+
+def directed_search(ctx, batch, script):
+    """the implementation left the model on `script` without the property failing yet: continue the history
+    in the ways a server can (confirm, lose the confirmation, consume, re-login, restart, ask for keys), with
+    each login of the history as it is and reported NON-passive, until a property oracle fails"""
+    C, A, D, R = {"op": "connect"}, {"op": "authed"}, {"op": "disconnected"}, {"op": "restart"}
+    res, ask, use = {"op": "result"}, {"op": "askkeys"}, {"op": "consume", "pick": 0}
+    NP = {"op": "authed", "passive": False}
+    variants = [list(script)]
+    for i, o in enumerate(script):
+        if o["op"] == "authed" and o.get("passive", True):
+            variants.append(script[:i] + [NP] + script[i + 1:])
+    tails = [[res, res, use, D, C, A, res, D, C, A, res],
+             [res, D, C, A, res, D, C, A, res],
+             [D, C, A, res, D, C, A, res],
+             [ask, res, res, use, D, C, A, res, D, C, A],
+             [D, R, C, A, res, D, C, A, res],
+             [res, ask, D, C, A, res, res, D, C, A]]
+    for v in variants:
+        connected, authed = end_state(v)
+        for login in (A, NP):
+            pre = [] if authed else ([login] if connected else [C, login])
+            for t in tails:
+                cand = v + pre + t
+                hr = HistoryRun(ctx, batch, cand, "d").run()
+                for name, detail, key in hr.problems:
+                    if key is None:
+                        return resolved_script(hr.ops, hr.op_wf), name, detail, hr
+            if authed:
+                break
+    return None
+
+
 def run(ctx):
     ctx.prove()
     exe = ctx.build_model("C14")
@@ -742,6 +884,7 @@ def run(ctx):
     distinct = set()
     opkinds = {}
     nontriv = {}
+    deferred = []
     for ci, (origin, batch, script) in enumerate(cases):
         hr = HistoryRun(ctx, batch, script, "h").run()
         evaluations += 1
@@ -768,10 +911,9 @@ def run(ctx):
             if small is not rs:
                 r3 = HistoryRun(ctx, batch, small, "k").run()
                 detail = next((d for n, d, k in r3.problems if n == name and k == key), detail)
-            ctx.violation(name, {"batch": batch, "script": small, "detail": detail, "origin": origin,
-                                 "server_realistic_history": realistic(small),
-                                 "oracles_failing": sorted(set(n for n, _, k in hr.problems if k == key))},
-                          key=key)
+            case = violation_case(batch, small, detail, origin, r3 if small is not rs else hr)
+            case["oracles_failing"] = sorted(set(n for n, _, k in hr.problems if k == key))
+            ctx.violation(name, case, key=key)
             break
         if model is not None:
             diff = compare(model, batch, hr)
@@ -781,23 +923,49 @@ def run(ctx):
             # implementation keeps being driven alone through every remaining history and the
             # implementation-side oracles decide whether a concrete failing history exists
             if diff is not None and corr_bad <= 2:
-                rs = resolved_script(hr.ops, hr.op_wf)
-
-                def pred2(cand):
-                    r = HistoryRun(ctx, batch, cand, "k").run()
-                    return compare(model, batch, r) is not None
-                small = shrink(ctx, batch, rs, pred2)
-                r2 = HistoryRun(ctx, batch, small, "k").run()
-                ctx.violation("correspondence:C14.history",
-                              {"batch": batch, "script": small, "detail": compare(model, batch, r2) or diff,
-                               "origin": origin},
-                              found_input=any(k is None for _, _, k in r2.problems))
+                deferred.append((origin, batch, resolved_script(hr.ops, hr.op_wf), diff))
         if found and any(k is None for _, _, k in hr.problems):
             oracle_hits += 1
         if ci % 53 == 0:
             ctx.add_sample({"origin": origin, "batch": batch, "ops": [list(o) for o in hr.ops][:14]})
         if oracle_hits >= 3:
             break
+    # model/code mismatches are reported after the failing histories of the property itself; for each one a
+    # directed search (the mismatching history continued in server-realistic ways, logins passive or not)
+    # looks for a history on which the property fails on the implementation
+    for origin, batch, rs, diff in deferred:
+        keep_real = realistic(rs)
+
+        def pred2(cand, _real=keep_real):
+            if _real and not realistic(cand):
+                return False
+            r = HistoryRun(ctx, batch, cand, "k").run()
+            return compare(model, batch, r) is not None
+        small = shrink(ctx, batch, rs, pred2)
+        r2 = HistoryRun(ctx, batch, small, "k").run()
+        d2 = compare(model, batch, r2) or diff
+        hit = None if any(k is None for _, _, k in r2.problems) else directed_search(ctx, batch, small)
+        if hit is not None:
+            script, name, detail, hr3 = hit
+
+            def pred3(cand, _n=name):
+                if not realistic(cand):
+                    return False
+                r = HistoryRun(ctx, batch, cand, "k").run()
+                return any(n == _n and k is None for n, _, k in r.problems)
+            small3 = shrink(ctx, batch, script, pred3)
+            r3 = HistoryRun(ctx, batch, small3, "k").run()
+            detail = next((d for n, d, k in r3.problems if n == name and k is None), detail)
+            ctx.violation(name, violation_case(batch, small3, detail, origin + "+directed-search", r3,
+                                               model_mismatch={"script": small, "detail": d2}))
+        elif any(k is None for _, _, k in r2.problems):
+            name, detail = next((n, d) for n, d, k in r2.problems if k is None)
+            ctx.violation(name, violation_case(batch, small, detail, origin + "+model-mismatch", r2,
+                                               model_mismatch={"detail": d2}))
+        else:
+            ctx.violation("correspondence:C14.history",
+                          {"batch": batch, "script": small, "detail": d2, "origin": origin,
+                           "uploads": r2.ledger}, found_input=False)
     n_adj, _ = adjust_id_cases(ctx, model)
     if model is not None:
         model.close()
@@ -814,7 +982,7 @@ def run(ctx):
     ctx.coverage["histories_reaching"] = nontriv
     return ctx.finish(
         rule="a case = one history (batch size 3-6, 6-24 events) driven through the real control layer, manager, "
-             "SQLite store and real Signal peers; corpus, 11 systematic histories (non-passive login + confirmed key request + consume + re-login on the same layer, first login, lost confirmation, "
+             "SQLite store and real Signal peers; corpus, 15 systematic histories (non-passive login with keys waiting + key-count request with a confirmed / lost confirmation, two lost confirmations with a generation before each flush, non-passive login + confirmed key request + consume + re-login on the same layer, first login, lost confirmation, "
              "restart before confirmation, error reply, key request, consume + double use, duplicate connects), "
              "then seeded random histories (about 6% ill-formed steps); after every step events and state are "
              "compared with the model; non-trivial = distinct resolved histories that reached a confirmation, a "
@@ -833,7 +1001,13 @@ def replay(ctx, data):
             i, list(op), [e[:4] for e in evs], st["rows"], st["unsent"], st["passive"]))
     for n, d, k in hr.problems:
         print("observed:", n, json.dumps(d, default=str)[:600], "(known finding %s)" % k if k else "")
-    print("expected: ids name one key; sent flag only after a confirmed upload; passive login offers exactly the "
+    for led in hr.ledger:
+        print("upload stanza #%d: sent at step %d (%s), prekey ids %s, answer: %s"
+              % (led["stanza"], led["step"], led["sent_at"], led["ids"], led["answer"]))
+    if hr.steps:
+        print("store at the end:", [[r[0], "sent" if r[2] else "pending"] for r in hr.steps[-1][2]["rows"]])
+    print("expected: ids name one key; sent flag only after a confirmed upload that carried the key, and always "
+          "after one; no upload offers a key of an already confirmed upload; passive login offers exactly the "
           "stored unconfirmed keys; offered keys stay available until consumed; consumed keys cannot be used again")
     if hr.problems:
         print("VIOLATION property=C14 replay=(replayed)")
